@@ -325,7 +325,8 @@ def prepare_kani_ws(scratch):
     return ws
 
 
-def kani_crate(crate, prop, tier, scratch, only=None, clean_units=()):
+def kani_crate(crate, prop, tier, scratch, only=None, clean_units=None):
+    clean_units = clean_units or {}
     """instrument the scratch copy of `crate`, run the harnesses that serve `prop`, return results"""
     cfg = registry.KANI[crate]
     ws = prepare_kani_ws(scratch)
@@ -373,8 +374,11 @@ def kani_crate(crate, prop, tier, scratch, only=None, clean_units=()):
             # quick tier: a harness whose obligations are ALL discharged by a Verus unit (unbounded) is run only when
             # that unit did not come out clean (failure -> the harness supplies the counterexample; undecided -> it decides)
             if tier != 'thorough' and h.get('covered_by') and h['covered_by'] in clean_units:
-                skipped.append(dict(name=h['name'], fn=h.get('fn', ''), covered_by=h['covered_by']))
-                continue
+                dirty = clean_units[h['covered_by']]     # None: unit clean; set: functions with a failing obligation
+                hfns = set(re.split(r'[+,]', h.get('fn', '').split('::')[-1].replace('{', '').replace('}', '')))
+                if dirty is None or not (dirty & hfns):
+                    skipped.append(dict(name=h['name'], fn=h.get('fn', ''), covered_by=h['covered_by']))
+                    continue
             h = dict(h)
             h['full'] = full
             h['file'] = gen_name
@@ -724,11 +728,20 @@ def main():
         log('[%s]   %s: %d fns verified, %d failing obligations, %d hard errors, %.1fs' % (prop, unit, r.get('verified_fns', 0), len(r['failures']), len(r['hard']), r.get('wall_s', 0)))
         results.append(r)
     known_all = load_known()
-    clean_units = set()
+    # Verus units that decided: unit -> None (clean, listed known findings aside) or the set of functions with a failing
+    # obligation (the Kani harnesses of exactly those functions then run on demand and supply the counterexample).
+    # A unit that is undecided (hard error) is absent: everything it would have covered is run.
+    clean_units = {}
     for r in results:
         unknown = [f for f in r['failures'] if not any(x['ob'] == f['name'] for x in known_all)]
-        if r.get('engine') == 'verus' and not r['hard'] and not unknown:
-            clean_units.add(r['unit'])
+        if r.get('engine') == 'verus' and not r['hard']:
+            if unknown:
+                fns = set(str(f.get('fn') or '').split('::')[-1] for f in unknown)
+                for f in list(fns):
+                    fns |= set(registry.KANI_CALLERS.get(f, []))     # a helper fails: the harnesses of its callers run
+                clean_units[r['unit']] = fns
+            else:
+                clean_units[r['unit']] = None
     for crate in cfg.get('kani', []):
         log('[%s] kani crate %s (%s tier) ...' % (prop, crate, tier))
         r = kani_crate(crate, prop, tier, scratch, only=args.only.split(',') if args.only else None, clean_units=clean_units)
